@@ -7,6 +7,7 @@ inductive Out where
   | segs (l : List (FX × List FX))
   | bool (b : Bool)
   | panic
+  | err
 deriving Repr
 
 namespace Out
@@ -16,6 +17,7 @@ def same : Out → Out → Bool
     a.length == b.length && (a.zip b).all fun (x, y) => sameF x.1 y.1 && sameList x.2 y.2
   | bool a, bool b => a == b
   | panic, panic => true
+  | err, err => true
   | _, _ => false
 
 def flat : Out → List FX
@@ -28,6 +30,7 @@ def render : Out → String
   | segs l => ";".intercalate (l.map fun (e, ns) => e.toHex ++ ":" ++ showList ns)
   | bool b => if b then "1" else "0"
   | panic => "PANIC"
+  | err => "ERR"
 
 def rawSegs? (s : String) : Option (List (FX × List FX)) :=
   if s.isEmpty then some [] else
@@ -39,12 +42,13 @@ def rawSegs? (s : String) : Option (List (FX × List FX)) :=
 /-- parse the implementation's output in the shape of the model's -/
 def parseLike (shape : Out) (s : String) : Option Out :=
   if s == "PANIC" then some panic else
+  if s == "ERR" then some err else
   match shape with
   | nums _ => (fxList? s).map nums
   | segs _ => (rawSegs? s).map segs
   | bool _ => if s == "1" then some (bool true) else if s == "0" then some (bool false) else none
-  | panic =>
-    -- the model panicked; accept any well-formed output for the comparison to fail on
+  | err | panic =>
+    -- the model panicked / returned an error; accept any well-formed output for the comparison to fail on
     if s == "1" then some (bool true) else if s == "0" then some (bool false)
     else if s.contains ':' then (rawSegs? s).map segs else (fxList? s).map nums
 
